@@ -25,7 +25,11 @@ RULE = ("each case = one run of one of the 11 shipped algorithms (round robin, s
         "from 6 policies (periodic actions of adsa are self-deliveries).  Every 14th case TRIES to declare a variable "
         "with an initial value outside its domain (falsy: 0/False/''/0.0, or truthy), through Variable / "
         "VariableWithCostDict / VariableWithCostFunc or a yaml string: 'rejected' (ValueError) is the expected "
-        "observation, an accepted declaration is run and judged by the same oracle.  non-trivial = at least one "
+        "observation, an accepted declaration is run and judged by the same oracle.  Every 14th case declares its "
+        "variables with RAW iterable domains (generator expression, iter(list), map object = one-shot; tuple, range, "
+        "str of chars) and initial values: the oracle demands that each variable holds exactly the generated values "
+        "in order and judges every selection against the generated list (never the domain read back); half of the "
+        "str-domain cases try a two-character substring as initial value (expected: rejected).  non-trivial = at least one "
         "_on_value_selection fired; distinct = distinct case JSON")
 MODELLED = ("Theorems (all schedules, all instances, all draws): in-domain selection for the handler-level models of "
             "dpop, syncbb, mgm, mgm2, dsa, dba, maxsum, amaxsum (other engineers' models, tied to the code by their own "
@@ -161,11 +165,50 @@ def gen_badinit(rng):
     return c
 
 
+RAW_FORMS = ["gen", "iter", "map", "tuple", "range", "str"]      # first three: one-shot iterables
+
+
+def gen_rawdom(rng):
+    """a DCOP whose variables are declared with RAW iterable domains (what the Variable docstring allows: 'Domain or
+    Iterable'): one-shot iterables (generator expression, iter(list), map object), tuple, range, str of chars - with
+    initial values.  The generated value list is the ground truth for the domain AND for the membership oracle."""
+    algo = rng.choice(INIT_ALGOS) if rng.random() < 0.8 else rng.choice(ALGOS)
+    c = gen_one(rng, algo)
+    forms, vars_ = [], []
+    for v in c["vars"]:
+        v = dict(v)
+        size = len(v["dom"])
+        form = rng.choice(RAW_FORMS + ["gen", "iter", "map"])
+        if form == "range":
+            off, step = rng.choice([0, 1, 3, 10]), rng.choice([1, 2, 5])
+            v["dom"] = [off + step * i for i in range(size)]
+        elif form == "str":
+            v["dom"] = list("pqrs"[:size])
+        elif form == "map" and not all(type(x) is int for x in v["dom"]):
+            v["dom"] = [3 + 2 * i for i in range(size)]
+        if v.get("costs") is not None:
+            v["costs"] = list(v["costs"])[:size]
+        v["init"] = rng.choice(v["dom"]) if rng.random() < 0.85 else None
+        forms.append(form)
+        vars_.append(v)
+    c["vars"], c["domforms"], c["via"] = vars_, forms, "api"
+    strs = [i for i, f in enumerate(forms) if f == "str" and len(vars_[i]["dom"]) >= 2]
+    if strs and rng.random() < 0.5:
+        # a str domain makes `x in domain` a substring test: 'pq' is in 'pqr' but is not one of its values
+        i = rng.choice(strs)
+        k = rng.randrange(len(vars_[i]["dom"]) - 1)
+        vars_[i]["init"] = vars_[i]["dom"][k] + vars_[i]["dom"][k + 1]
+        c["badinit"] = [i, "truthy"]
+    return c
+
+
 def gen(rng, n, tier):
     out = []
     for k in range(n):
         if k % 14 == 13:          # low-weight stream (7%): out-of-domain initial values
             out.append(gen_badinit(rng))
+        elif k % 14 == 6:         # low-weight stream (7%): raw iterable domains with initial values
+            out.append(gen_rawdom(rng))
         else:
             out.append(gen_one(rng, ALGOS[k % len(ALGOS)]))
     return out
@@ -186,6 +229,15 @@ def oracle(case, o):
         # the declaration was refused: nothing can be selected.  Only legitimate for the bad-initial-value stream
         return None if case.get("badinit") else "construction rejected: %s" % o.get("error")
     names = ["v%02d" % i for i in range(len(case["vars"]))]
+    if o.get("domvals") is not None:
+        # the variables hold exactly the generated values, in order (ground truth = the generator's list, never the
+        # domain read back from the implementation); a raw iterable domain must not be consumed by the constructor
+        want = [[[type(x).__name__, repr(x)] for x in v["dom"]] for v in case["vars"]]
+        if o["domvals"] != want:
+            i = [a != b for a, b in zip(o["domvals"], want)].index(True) if len(o["domvals"]) == len(want) else 0
+            return "%s v%02d: declared with the domain %r (%s) and initial value %r, the variable holds the domain %s" % (
+                case["algo"], i, case["vars"][i]["dom"], (case.get("domforms") or [None] * (i + 1))[i],
+                case["vars"][i].get("init"), [x[1] for x in o["domvals"][i]] if i < len(o["domvals"]) else None)
     if sorted(o["varcomps"]) != names:
         return "%s: variable computations %s, expected %s" % (case["algo"], o["varcomps"], names)
     for c in o["calls"]:
@@ -235,7 +287,7 @@ def _mask(m):
 
 
 def coq_case(case, o):
-    if o.get("rejected"):
+    if o.get("rejected") or o.get("dom_mismatch"):
         return "mkCase2 [] (A2Old ANone)"
     names = o["varcomps"]
     funnel = []
@@ -298,6 +350,10 @@ def histogram(cases, obs):
         a = c["algo"]
         d = h.setdefault(a, dict(runs=0, calls=0, fired=0, raises=0, mixed_runs=0, driver_errors=0))
         d["runs"] += 1
+        if c.get("domforms"):
+            b = h.setdefault("raw_iterable_domains", {})
+            for f in c["domforms"]:
+                b[str(f)] = b.get(str(f), 0) + 1
         if c.get("badinit"):
             b = h.setdefault("bad_initial_value", {})
             key = "%s_%s_%s" % (c["via"], c["badinit"][1], "rejected" if o.get("rejected") else "ACCEPTED")
